@@ -6,7 +6,7 @@
 From Coq Require Import List NArith ZArith Bool Lia Sorted Permutation.
 Import ListNotations.
 From JV Require Import Model.FiltColl Model.FiltCollRun Spec.FiltCollSpec
-                       Proofs.FiltCollProofs Proofs.FiltCollRunProofs.
+                       Proofs.FiltCollProofs Proofs.FiltCollRunProofs Proofs.FiltOrderProofs.
 
 (* slice(n, fill) with n >= 1 is the documented column layout: n columns that partition the
    input in order, the first |xs| mod n one item longer, the fill value appended exactly to
@@ -95,6 +95,26 @@ Proof.
   - apply sort_is_stable_sort; unfold flip; [intros a b; destruct (Htot a b); auto|intros a b c H1 H2; eauto].
 Qed.
 Print Assumptions C22_sort_stable_perm.
+
+(* the same, instantiated: for the concrete key order the filters use on the modelled values
+   (Z order on ints, code-point order on strs, Python's list comparison on the case-folded
+   multi-attribute keys) totality and transitivity are PROVED, so do_sort's result is the stable
+   sort of its input with no hypothesis left on the order *)
+Theorem C22_sort_concrete : forall reverse cs a xs ys,
+  f_sort reverse cs a xs = Ok (VList ys) ->
+  exists kxs, mkeyed a cs xs = Ok kxs /\ map snd kxs = xs /\
+    let order := if reverse then flip mkey_leb else mkey_leb in
+    ys = map snd (sort_by fst order kxs) /\ stable_sort_of fst order kxs (sort_by fst order kxs).
+Proof. exact f_sort_concrete. Qed.
+Print Assumptions C22_sort_concrete.
+
+Theorem C22_key_order_laws :
+  (forall a b : list value, mkey_leb a b = true \/ mkey_leb b a = true) /\
+  (forall a b c : list value, mkey_leb a b = true -> mkey_leb b c = true -> mkey_leb a c = true) /\
+  (forall a b : value, vkey_leb a b = true \/ vkey_leb b a = true) /\
+  (forall a b c : value, vkey_leb a b = true -> vkey_leb b c = true -> vkey_leb a c = true).
+Proof. repeat split; [exact mkey_leb_total|exact mkey_leb_trans|exact vkey_leb_total|exact vkey_leb_trans]. Qed.
+Print Assumptions C22_key_order_laws.
 
 (* groupby: the groups concatenate to the stable sort of the input by key; every group is
    non-empty and all its members carry the group's key; group keys strictly increase *)
